@@ -33,6 +33,7 @@ const KEY_SEEK_ASSERT: &str = "C16:search-exclude-seek-below-doc-debug-assert";
 const KEY_LENIENT_ADJACENT: &str = "C16:lenient-touching-clauses-differ-from-strict";
 const KEY_LENIENT_NOT_FIELD: &str = "C16:lenient-not-keyword-vs-field-name";
 const KEY_LENIENT_RANGE_ESCAPE: &str = "C16:lenient-range-bound-escape-differs";
+const KEY_BOOST_SKIP: &str = "C16:rewrite-skips-boosted-group";
 const KEY_SET_LOOP: &str = "C16:lenient-set-unicode-space-loop";
 
 // ------------------------------------------------------------------------------------------
